@@ -188,4 +188,18 @@ CLAIMS['C16'] = {
     'note': _NOTE,
 }
 
+CLAIMS['C15'] = {
+    'text': 'run()/isolation: the state handle is an instance of a threading.local subclass '
+            'and its loop slot has two writers; every module level and class level '
+            'assignment of the package is classified (class, function, constant, TypeVar, '
+            'stateless or inert singleton, named type cache) so that no other shared mutable '
+            'object can carry simulation state, and no global/nonlocal statement exists; '
+            'assign() restores the saved loop on every path incl. exceptions at its yield; '
+            'Loop.run/usim.run shapes; _run_events leaves only on an empty wait queue; the '
+            'kernel handles StopIteration only (ActivityLeak iff a value was returned); roots '
+            'queued in order at start. Real thread interleavings are not explored: they are '
+            'made irrelevant by the confinement that is checked.',
+    'note': _NOTE,
+}
+
 NOT_APPLICABLE = {}
